@@ -6,6 +6,7 @@ pub fn gen_case(profile: &str, rng: &mut Rng, out: &mut String) -> bool {
         "C01" => super::c01::gen_case(rng, out, false),
         "C07" => super::c01::gen_case(rng, out, true),
         "C10" => super::c10::gen_case(rng, out),
+        "C11" => super::c11::gen_case(rng, out),
         "C12" => super::c12::gen_case(rng, out),
         _ => return false,
     }
